@@ -80,6 +80,8 @@ class SymFS:
     def __init__(self):
         self.files = {}
         self.log = []
+        self.locks = set()
+        self.lock_log = []
 
     # ---- store primitives
     @staticmethod
@@ -184,6 +186,28 @@ class SymFS:
         def aspil(self_img):
             return _FakePil(fs, self_img.asarray(), self_img.mode.try_as_pil())
 
+        import filelock as _fl
+
+        class FakeLock:
+            """Stand-in for filelock.SoftFileLock over the in-memory store (atomic create-exclusive / remove)."""
+
+            def __init__(self, path, *a, **k):
+                self.path = path
+
+            def __enter__(self):
+                if self.path in fs.locks:
+                    raise RuntimeError("lock %s already held (single-threaded harness)" % self.path)
+                fs.locks.add(self.path)
+                fs.lock_log.append(("acquire", self.path))
+                return self
+
+            def __exit__(self, *a):
+                fs.locks.discard(self.path)
+                fs.lock_log.append(("release", self.path))
+                return False
+
+        saved_lock = _fl.SoftFileLock
+        _fl.SoftFileLock = FakeLock
         saved = dict(tp_os=tp.os, tp_glob=tp.glob, ti_fits=ti.fits, ti_np=ti.np, ti_open=ti.__dict__.get("open"),
                      load_stream=ImageLoader.load_stream, aspil=Image.aspil, wcs=_awcs.WCS, ti_os=ti.os)
         tp.os = FakeOS
@@ -210,3 +234,4 @@ class SymFS:
             ImageLoader.load_stream = saved["load_stream"]
             Image.aspil = saved["aspil"]
             _awcs.WCS = saved["wcs"]
+            _fl.SoftFileLock = saved_lock
